@@ -147,7 +147,9 @@ func c08Forms() []c08Form {
 		}},
 		{"数加", 2, func(a []zn.Expr) zn.Expr { return mc1(a[0], "加", a[1]) }},
 		{"缺函", 1, func(a []zn.Expr) zn.Expr { return call("缺函", a[0]) }},
-		{"新建型", 1, func(a []zn.Expr) zn.Expr { return zn.Member{Root: zn.New{Class: "型", Args: []zn.Expr{a[0]}}, Name: "数"} }},
+		{"新建型", 1, func(a []zn.Expr) zn.Expr {
+			return zn.Member{Root: zn.New{Class: "型", Args: []zn.Expr{a[0]}}, Name: "数"}
+		}},
 		{"新建型-1", 0, func(a []zn.Expr) zn.Expr { return zn.Member{Root: zn.New{Class: "型"}, Name: "数"} }},
 		{"新建点", 0, func(a []zn.Expr) zn.Expr { return zn.Member{Root: zn.New{Class: "点"}, Name: "X"} }},
 		{"应用一", 1, func(a []zn.Expr) zn.Expr { return call("应用", zn.Var{Name: "一"}, a[0]) }},
@@ -172,7 +174,9 @@ func c08Forms() []c08Form {
 		{"新建框", 0, func(a []zn.Expr) zn.Expr {
 			return zn.Member{Root: zn.Member{Root: zn.New{Class: "框"}, Name: "角"}, Name: "纵"}
 		}},
-		{"新建点+2", 2, func(a []zn.Expr) zn.Expr { return zn.Member{Root: zn.New{Class: "点", Args: []zn.Expr{a[0], a[1]}}, Name: "X"} }},
+		{"新建点+2", 2, func(a []zn.Expr) zn.Expr {
+			return zn.Member{Root: zn.New{Class: "点", Args: []zn.Expr{a[0], a[1]}}, Name: "X"}
+		}},
 	}
 }
 
@@ -344,7 +348,7 @@ func init() {
 	mc.Register(&mc.Check{
 		ID:    "C08",
 		Level: "exploration",
-		Rule: "E1 exhaustive by rank/unrank: every program of m statements (显示 e | O之数 = e | 令N = e | （一：e）得到R | {e}) whose expressions e range over ALL call/object expressions up to the depth bound built from 41 forms (method chains of three and four links whose links return new values; tree recursion binding its two results with 得到 under the same names in every call; a method that calls the method it is given, called with two different methods; a method whose nested call fails on its argument count and is handled inside it while a top-level variable has the name of its input; methods of arity 0/1/2, recursion that re-enters one two-argument call expression while its later arguments are being evaluated (Fibonacci, Ackermann, a traced descent), a type whose default number is only ever changed in place (自增 through 其 and from outside, two instances plus fresh ones), in-place 自减 on a property, arity -1/+1 mismatches, recursion, methods of two instances of a type with scalar + list defaults and a constructor, 其 reads/writes, a method calling another object's method and then reading 其, a method whose nested call fails and is handled, 其自身, unknown method / property / function, chained 以…（…）、（…）, a built-in number method, 新建 with matching / missing / surplus arguments) with every leaf wrapped in a tracing call; final observation of both instances. Oracle: reference interpreter (ordered trace incl. argument evaluation order, error-ness). Distinct by construction; all non-trivial.",
+		Rule:  "E1 exhaustive by rank/unrank: every program of m statements (显示 e | O之数 = e | 令N = e | （一：e）得到R | {e}) whose expressions e range over ALL call/object expressions up to the depth bound built from 41 forms (method chains of three and four links whose links return new values; tree recursion binding its two results with 得到 under the same names in every call; a method that calls the method it is given, called with two different methods; a method whose nested call fails on its argument count and is handled inside it while a top-level variable has the name of its input; methods of arity 0/1/2, recursion that re-enters one two-argument call expression while its later arguments are being evaluated (Fibonacci, Ackermann, a traced descent), a type whose default number is only ever changed in place (自增 through 其 and from outside, two instances plus fresh ones), in-place 自减 on a property, arity -1/+1 mismatches, recursion, methods of two instances of a type with scalar + list defaults and a constructor, 其 reads/writes, a method calling another object's method and then reading 其, a method whose nested call fails and is handled, 其自身, unknown method / property / function, chained 以…（…）、（…）, a built-in number method, 新建 with matching / missing / surplus arguments) with every leaf wrapped in a tracing call; final observation of both instances. Oracle: reference interpreter (ordered trace incl. argument evaluation order, error-ness). Distinct by construction; all non-trivial.",
 		Assumptions: []string{
 			"reference interpreter (manual ch.8) is the oracle; a method ending without 输出 is not asserted (none generated)",
 			"error codes are not compared across the call boundary",
